@@ -17,6 +17,7 @@ import (
 	"runtime"
 	"sync"
 	"sync/atomic"
+	"syscall"
 	"time"
 
 	"github.com/google/gopacket"
@@ -463,7 +464,7 @@ func (s *recScanner) Scan(ctx context.Context, r *scan.Request) (scan.Result, er
 	case outPositive:
 		res = &rigResult{id: id}
 	case outError:
-		err = &rigErr{"probe", id}
+		err = rigProbeError(s.seed, id)
 	}
 	ke := int(atomic.AddInt32(&s.nend, 1))
 	if s.onEnd != nil {
@@ -478,6 +479,27 @@ func (s *recScanner) Scan(ctx context.Context, r *scan.Request) (scan.Result, er
 	s.mu.Unlock()
 	atomic.AddInt32(&s.inflight, -1)
 	return res, err
+}
+
+// rigProbeError: the kinds of error real scanners return for a failed probe (each value has its own
+// identity): plain, per-probe timeout (wraps context.DeadlineExceeded like net timeouts do),
+// a cancelled per-probe sub-context, refused connection, EOF, empty message.
+func rigProbeError(seed uint64, id uint32) error {
+	switch rigHash(seed, id, 31) % 7 {
+	case 0:
+		return fmt.Errorf("probe %d: dial tcp: i/o timeout: %w", id, context.DeadlineExceeded)
+	case 1:
+		return &net.OpError{Op: "dial", Net: "tcp", Err: fmt.Errorf("probe %d: %w", id, context.DeadlineExceeded)}
+	case 2:
+		return fmt.Errorf("probe %d: request aborted: %w", id, context.Canceled)
+	case 3:
+		return &net.OpError{Op: "dial", Net: "tcp", Err: fmt.Errorf("probe %d: %w", id, syscall.ECONNREFUSED)}
+	case 4:
+		return fmt.Errorf("probe %d: %w", id, io.ErrUnexpectedEOF)
+	case 5:
+		return &rigErr{"", id}
+	}
+	return &rigErr{"probe", id}
 }
 
 // recOut records every Write call separately (merge/split detection).
